@@ -217,6 +217,8 @@ impl DecodeContext {
     #[cfg(not(feature = "no-recursion-limit"))]
     #[inline]
     pub(crate) fn enter_recursion(&self) -> DecodeContext {
+        #[cfg(pilota_verif)]
+        verif_budget::emit(false, self.recurse_count);
         DecodeContext {
             recurse_count: self.recurse_count - 1,
         }
@@ -236,6 +238,8 @@ impl DecodeContext {
     #[cfg(not(feature = "no-recursion-limit"))]
     #[inline]
     pub(crate) fn limit_reached(&self) -> Result<(), DecodeError> {
+        #[cfg(pilota_verif)]
+        verif_budget::emit(true, self.recurse_count);
         if self.recurse_count == 0 {
             Err(DecodeError::new("recursion limit reached"))
         } else {
@@ -248,6 +252,38 @@ impl DecodeContext {
     #[allow(clippy::unnecessary_wraps)] // needed in other features
     pub(crate) fn limit_reached(&self) -> Result<(), DecodeError> {
         Ok(())
+    }
+}
+
+/// Verification hook (add-only, compiled only with `--cfg pilota_verif`): the recursion budget as the
+/// decoder consults it -- one event per `limit_reached` (check) and per `enter_recursion` (enter),
+/// each with the count of the context it is called on.
+#[cfg(all(pilota_verif, not(feature = "no-recursion-limit")))]
+#[doc(hidden)]
+pub mod verif_budget {
+    use std::cell::RefCell;
+
+    thread_local! {
+        static LOG: RefCell<Option<Vec<(bool, u32)>>> = const { RefCell::new(None) };
+    }
+
+    /// start recording on this thread
+    pub fn start() {
+        LOG.with(|l| *l.borrow_mut() = Some(Vec::new()));
+    }
+
+    /// stop recording and return the events: (is_check, count)
+    pub fn take() -> Vec<(bool, u32)> {
+        LOG.with(|l| l.borrow_mut().take().unwrap_or_default())
+    }
+
+    #[inline]
+    pub(super) fn emit(check: bool, count: u32) {
+        LOG.with(|l| {
+            if let Some(v) = l.borrow_mut().as_mut() {
+                v.push((check, count));
+            }
+        });
     }
 }
 
